@@ -840,6 +840,56 @@ def run(ctx: common.Ctx):
     ctx.sample({"stream": "tests", "test": "padding", "on": "PaddingField",
                 "value": bool(env_tests["padding"](next(v for v in values if isinstance(v, pydsdl.PaddingField)))) if "padding" in env_tests else None})
 
+    # ---- F3. histories of tests on SHORT-LIVED objects in the one environment: create, test, drop, create an object of
+    # another class (CPython hands out the freed address again), test.  The tests must be a function of the value alone.
+    import copy
+    CM = pydsdl.PrimitiveType.CastMode
+    pyd = [v for v in values if isinstance(v, pydsdl.Any) and type(v).__name__ in by_name and v is not root_ns]
+    makers = [lambda: pydsdl.UnsignedIntegerType(rng.randint(1, 64), CM.TRUNCATED), lambda: pydsdl.SignedIntegerType(rng.randint(2, 64), CM.SATURATED),
+              lambda: pydsdl.FloatType(rng.choice([16, 32, 64]), CM.SATURATED), lambda: pydsdl.BooleanType(), lambda: pydsdl.VoidType(rng.randint(1, 64)),
+              lambda: pydsdl.ByteType(), lambda: pydsdl.UTF8Type(),
+              lambda: pydsdl.FixedLengthArrayType(pydsdl.UnsignedIntegerType(8, CM.TRUNCATED), rng.randint(1, 9)),
+              lambda: pydsdl.VariableLengthArrayType(pydsdl.SignedIntegerType(8, CM.SATURATED), rng.randint(1, 9)),
+              lambda: pydsdl.Field(pydsdl.UnsignedIntegerType(8, CM.TRUNCATED), "x"), lambda: pydsdl.Field(pydsdl.FloatType(32, CM.SATURATED), "y"),
+              lambda: pydsdl.PaddingField(pydsdl.VoidType(rng.randint(1, 64)))] + [lambda: copy.copy(rng.choice(pyd))] * 8
+    instance_test_names = sorted(code_tests)
+    f3_seen, f3_reuse, last = {}, 0, None
+    n_short = 4000 if ctx.quick else 40000
+    for it in range(n_short):
+        try:
+            obj = rng.choice(makers)()
+        except Exception:  # a constructor signature of another PyDSDL version
+            obj = copy.copy(rng.choice(pyd))
+        if last is not None and last[0] == id(obj) and last[1] is not type(obj):
+            f3_reuse += 1
+        last = (id(obj), type(obj))
+        subject = obj.data_type if isinstance(obj, pydsdl.Attribute) else obj
+        asked = instance_test_names if it % 4 == 0 else rng.sample(instance_test_names, 6)
+        for tn in asked:
+            if tn not in env_tests:
+                continue
+            got = bool(env_tests[tn](obj))
+            exp = isinstance(subject, bound_class(code_tests[tn]))
+            f3_seen.setdefault((tn, type(obj).__name__, type(subject).__name__ if subject is not obj else None), set()).add(got)
+            if got != exp:
+                ctx.fail({"kind": "instance-test-depends-on-history"},
+                         f"after {it} earlier short-lived objects, test {tn!r} on a fresh {type(obj).__name__} (subject {type(subject).__name__}) is {got}; "
+                         f"class membership says {exp}",
+                         {"stream": "tests-short-lived", "iteration": it, "name": tn, "value_class": type(obj).__name__,
+                          "subject_class": type(subject).__name__, "expected": exp, "seed": ctx.seed, "tier": ctx.tier})
+        ctx.case(("short-lived", it, type(obj).__name__), True)
+        del obj, subject
+    ctx.count("short-lived-objects", n_short)
+    ctx.count("short-lived-address-reused-by-another-class", f3_reuse)
+    f3_keys = sorted(f3_seen, key=lambda k: (k[0], k[1], k[2] or ""))
+    for key, m in zip(f3_keys, ask([f"istest {enc(k[0])} {enc(k[1])} {enc(k[2]) if k[2] else '!'}" for k in f3_keys])):
+        if m is None:
+            continue
+        ctx.traces += 1
+        impl = {"1" if g else "0" for g in f3_seen[key]}
+        if impl != {m}:
+            ctx.disagree("instance-test-history", {"test": key[0], "value_class": key[1], "data_type_class": key[2]}, m, sorted(impl))
+
     # ---- F2. the product path: DSDLCodeGenerator.filter_type_to_template(value) on the parsed objects ------------------
     f2_lines, f2_impl, f2_meta = [], [], []
     for variant in ["builtin"] + ["userdir"] * (6 if ctx.quick else 40):
@@ -1186,6 +1236,34 @@ def replay(ctx, path):
             print(json.dumps({"sequence_results": warm, "cold_result": cold[0], "expected_nearest": exp}))
             got_stem = None if cold[0] is None else stem(cold[0])
             return 1 if (warm[-1] != cold[0] or got_stem != (exp[0] if exp else None)) else 0
+        if rp.get("stream") == "tests-short-lived":
+            import random
+            from nunavut.lang import LanguageContextBuilder
+            from nunavut.jinja import DSDLCodeGenerator
+            ns_dir = ctx.scratch / "dsdl" / "vt"
+            ns_dir.mkdir(parents=True)
+            (ns_dir / "E.1.0.dsdl").write_text("@sealed\n")
+            lctx = LanguageContextBuilder().set_target_language("c").create()
+            root_ns = nunavut.build_namespace_tree(pydsdl.read_namespace(str(ns_dir), []), str(ns_dir), str(ctx.scratch / "out"), lctx)
+            tests = DSDLCodeGenerator(root_ns)._env.tests
+            CM = pydsdl.PrimitiveType.CastMode
+            rr = random.Random(r.get("seed", 0))
+            mk = [lambda: pydsdl.UnsignedIntegerType(8, CM.TRUNCATED), lambda: pydsdl.SignedIntegerType(8, CM.SATURATED), lambda: pydsdl.BooleanType(),
+                  lambda: pydsdl.VoidType(3), lambda: pydsdl.FloatType(32, CM.SATURATED), lambda: pydsdl.Field(pydsdl.UnsignedIntegerType(8, CM.TRUNCATED), "x"),
+                  lambda: pydsdl.PaddingField(pydsdl.VoidType(2))]
+            pairs = {"UnsignedIntegerType": pydsdl.UnsignedIntegerType, "unsignedinteger": pydsdl.UnsignedIntegerType, "void": pydsdl.VoidType,
+                     "boolean": pydsdl.BooleanType, "float": pydsdl.FloatType, "SignedIntegerType": pydsdl.SignedIntegerType, "primitive": pydsdl.PrimitiveType}
+            for it in range(20000):
+                obj = rr.choice(mk)()
+                subject = obj.data_type if isinstance(obj, pydsdl.Attribute) else obj
+                for tn, cl in pairs.items():
+                    if bool(tests[tn](obj)) != isinstance(subject, cl):
+                        print(json.dumps({"iteration": it, "test": tn, "value_class": type(obj).__name__, "subject_class": type(subject).__name__,
+                                          "answer": bool(tests[tn](obj)), "isinstance": isinstance(subject, cl)}))
+                        return 1
+                del obj, subject
+            print(json.dumps({"iterations": 20000, "mismatches": 0}))
+            return 0
         if rp.get("stream") == "get_source":
             from nunavut.jinja.loaders import DSDLTemplateLoader
             from nunavut.jinja.jinja2 import Environment, TemplateNotFound
